@@ -1,11 +1,12 @@
 import Proofs.Reader
+import Proofs.ReaderDocs
 /-! Location lemmas of the reader model (C17): which line and path an error carries. -/
 namespace Reader
 
-/-- the error of a referenced definition as it leaves the referring `parse`: path unchanged, line kept if it has one,
-    else the line of the referring statement -/
-def DepErr (c : Ctx) (k : Nat) (l : Line) (e : Err) : Prop :=
-  ∃ w0 j e0 w1, j ∈ l.deps ∧ c.depRead w0 j = (w1, some e0) ∧ e = ⟨e0.file, some (e0.line.getD k)⟩
+/-- the error of a referenced definition of line `l` as it leaves the referring `parse`: exactly as the referenced
+    definition reported it (path and line untouched) -/
+def DepErr (c : Ctx) (l : Line) (e : Err) : Prop :=
+  ∃ w0 j w1, j ∈ l.deps ∧ j < c.ndefs ∧ c.depRead w0 j = (w1, some e)
 
 def Own (c : Ctx) (k : Nat) {α : Type} (x : M α) : Prop := ∀ e w', x = .error (e, w') → e = ⟨c.self, some k⟩
 
@@ -31,11 +32,18 @@ theorem own_flushAttr {c k s doc} : Own c k (flushAttr c k s doc) := by
   · exact own_ok _
   · exact own_commitAttr
 
-theorem own_flush {c k s} : Own c k (flush c k s) := by
-  unfold flush
-  split
-  · exact own_ok _
-  · intro e w' h; rw [map_err] at h; exact own_flushAttr e w' h
+/-- `flush` raises only while committing the queued attribute, and then with the line of that attribute statement -/
+theorem flush_err {c k s e w'} (h : flush c k s = .error (e, w')) :
+    s.pending.isSome ∧ e = ⟨c.self, some (if s.lastAttrLine = 0 then k else s.lastAttrLine)⟩ := by
+  unfold flush at h
+  split at h
+  · cases h
+  · rw [map_err] at h
+    refine ⟨?_, own_flushAttr e w' h⟩
+    unfold flushAttr at h
+    cases hp : s.pending with
+    | none => simp [hp] at h
+    | some p => rfl
 
 theorem own_resolveRefs {c k s rs} : Own c k (resolveRefs c k s rs) := by
   induction rs with
@@ -45,12 +53,6 @@ theorem own_resolveRefs {c k s rs} : Own c k (resolveRefs c k s rs) := by
     split
     · exact ih
     · exact own_raise
-
-theorem own_onAttr {c k s core bad} : Own c k (onAttr c k s core bad) := by
-  unfold onAttr
-  split
-  · exact own_raise
-  · intro e w' h; rw [map_err] at h; exact own_flushAttr e w' h
 
 theorem own_onMarker {c k s} : Own c k (onMarker c k s) := by
   unfold onMarker
@@ -63,8 +65,14 @@ theorem own_onDirective {c k s name ev text} : Own c k (onDirective c k s name e
   repeat' split
   all_goals first | exact own_ok _ | exact own_raise
 
+theorem own_onAttr {c k s core bad} : Own c k (onAttr c k s core bad) := by
+  unfold onAttr
+  split
+  · exact own_raise
+  · intro e w' h; rw [map_err] at h; exact own_flushAttr e w' h
+
 theorem readDeps_err {c k l s e w'} : ∀ js, (∀ j ∈ js, j ∈ l.deps) → readDeps c k s js = .error (e, w') →
-    e = ⟨c.self, some k⟩ ∨ DepErr c k l e := by
+    e = ⟨c.self, some k⟩ ∨ DepErr c l e := by
   intro js
   induction js generalizing s with
   | nil => intro _ h; simp [readDeps] at h
@@ -73,15 +81,28 @@ theorem readDeps_err {c k l s e w'} : ∀ js, (∀ j ∈ js, j ∈ l.deps) → r
     unfold readDeps at h
     split at h
     · left; exact own_raise e w' h
-    · split at h
+    · rename_i hj
+      split at h
       · exact ih (fun x hx => hm x (List.mem_cons_of_mem _ hx)) h
       · rename_i w1 e0 hd
         right
         simp at h
-        exact ⟨s.w, j, e0, w1, hm j (List.mem_cons_self ..), hd, h.1.symm⟩
+        exact ⟨s.w, j, w1, hm j (List.mem_cons_self ..), by omega, by rw [hd, h.1]⟩
 
-theorem visitStmt_err {c k l st s e w'} (h : visitStmt c k l st s = .error (e, w')) :
-    e = ⟨c.self, some k⟩ ∨ DepErr c k l e := by
+/-- the line an error of `flush` carries, given the state invariant -/
+def AttrLine (s : St) (k : Nat) : Nat := if s.lastAttrLine = 0 then k else s.lastAttrLine
+
+/-- what can leave the visit of a statement on line `k`: an own error with line `k`, an own error with the line of the
+    attribute statement that was waiting for its doc comment, or the untouched error of a referenced definition -/
+theorem markOffs_pending (l : Line) (s : St) : (markOffs l s).pending = s.pending := by
+  unfold markOffs; split <;> rfl
+
+theorem markOffs_lastAttrLine (l : Line) (s : St) : (markOffs l s).lastAttrLine = s.lastAttrLine := by
+  unfold markOffs; split <;> rfl
+
+theorem visitStmt_err {c k l st s e w'} (hi : s.pending.isSome → s.header = false)
+    (h : visitStmt c k l st s = .error (e, w')) :
+    e = ⟨c.self, some k⟩ ∨ (s.pending.isSome ∧ e = ⟨c.self, some (AttrLine s k)⟩) ∨ DepErr c l e := by
   unfold visitStmt at h
   rw [bind_err] at h
   rcases h with h | ⟨s3, h3, h⟩
@@ -91,21 +112,46 @@ theorem visitStmt_err {c k l st s e w'} (h : visitStmt c k l st s = .error (e, w
     · rw [bind_err] at h
       rcases h with h | ⟨s1, _, h⟩
       · split at h
-        · left; exact own_flush e w' h
+        · right; left; exact flush_err h
         · cases h
       · rw [bind_err] at h
         rcases h with h | ⟨s2, _, h⟩
         · left; exact own_resolveRefs e w' h
         · rw [bind_err] at h
           rcases h with h | ⟨s3', _, h⟩
-          · exact readDeps_err l.deps (fun _ hx => hx) h
+          · rcases readDeps_err l.deps (fun _ hx => hx) h with h | h
+            · left; exact h
+            · right; right; exact h
           · split at h
             · left; exact own_raise e w' h
             · cases h
-  · unfold emitStmt at h
+  · -- the statement visitor: its flush finds nothing to commit unless the children did not flush
+    unfold emitStmt at h
     rw [bind_err] at h
     rcases h with h | ⟨s4, _, h⟩
-    · left; exact own_flush e w' h
+    · -- flush of s3: relate s3 to s
+      unfold visitChildren at h3
+      split at h3
+      · simp [raise] at h3
+      · simp only [bind_ok] at h3
+        obtain ⟨s1, hs1, s2, hs2, s3', hs3', h3⟩ := h3
+        split at h3
+        · simp [raise] at h3
+        · cases h3
+          have e2 := resolveRefs_ok hs2; subst e2
+          obtain ⟨w3, e3⟩ := readDeps_ok hs3'
+          obtain ⟨hp, he⟩ := flush_err h
+          split at hs1
+          · -- the children flushed: nothing is pending any more
+            exfalso
+            have hp1 := (flush_ok hs1 hi).1
+            rw [e3] at hp
+            simp [markOffs_pending, hp1] at hp
+          · cases hs1
+            right; left
+            rw [e3] at hp he
+            simp only [markOffs_pending, markOffs_lastAttrLine] at hp he
+            exact ⟨hp, he⟩
     · split at h
       · left; exact own_raise e w' h
       · left
@@ -114,76 +160,92 @@ theorem visitStmt_err {c k l st s e w'} (h : visitStmt c k l st s = .error (e, w
         | directive name ev text => exact own_onDirective e w' h
         | marker => exact own_onMarker e w' h
 
-/-- every error that leaves the visit of line `k` carries the own path and line `k`, or is the located error of a
-    referenced definition (whose known line is never overwritten) -/
-theorem stepLine_err {c k l s e w'} (h : stepLine c k s l = .error (e, w')) :
-    e = ⟨c.self, some k⟩ ∨ DepErr c k l e := by
-  unfold stepLine at h
-  rw [bind_err] at h
-  rcases h with h | ⟨s1, _, h⟩
-  · cases hl : l.stmt with
-    | none => simp [hl] at h
-    | some st => simp only [hl] at h; exact visitStmt_err h
-  · split at h
-    · left; exact own_flush e w' h
+/-! ### the invariant of the line bookkeeping -/
+
+/-- `P` holds of the line of the attribute statement that awaits its doc comment -/
+def LInv (P : Nat → Prop) (s : St) : Prop :=
+  (s.pending.isSome → s.header = false) ∧
+  (∀ a bad, s.pending = some (a, bad) → s.lastAttrLine = a.line ∧ a.line ≠ 0) ∧
+  (s.lastAttrLine = 0 ∨ P s.lastAttrLine)
+
+theorem LInv.last_ne {P s} (h : LInv P s) (hp : s.pending.isSome) : s.lastAttrLine ≠ 0 := by
+  cases hq : s.pending with
+  | none => simp [hq] at hp
+  | some p => obtain ⟨a, bad⟩ := p; have := h.2.1 a bad hq; rw [this.1]; exact this.2
+
+theorem LInv_mono {P Q : Nat → Prop} {s} (h : LInv P s) (hpq : ∀ n, P n → Q n) : LInv Q s :=
+  ⟨h.1, h.2.1, h.2.2.imp id (hpq _)⟩
+
+theorem flush_last {c k s s'} (h : flush c k s = .ok s') (hi : s.pending.isSome → s.header = false) :
+    s'.lastAttrLine = s.lastAttrLine ∧ s'.pending = none ∧ s'.header = false := by
+  obtain ⟨p, q, _⟩ := flush_ok h hi
+  refine ⟨?_, p, q⟩
+  unfold flush at h
+  split at h
+  · cases h; rfl
+  · rw [map_ok] at h
+    obtain ⟨s1, h1, h2⟩ := h
+    subst h2
+    unfold flushAttr at h1
+    cases hp : s.pending with
+    | none => simp [hp] at h1; subst h1; rfl
+    | some p =>
+      obtain ⟨a, bad⟩ := p
+      simp only [hp] at h1
+      unfold commitAttr at h1
+      split at h1
+      · simp [raise] at h1
+      · split at h1
+        · cases h1; rfl
+        · split at h1
+          · simp [raise] at h1
+          · cases h1; rfl
+
+theorem LInv_flush {P c k s s'} (h : flush c k s = .ok s') (hl : LInv P s) : LInv P s' := by
+  obtain ⟨a, b, _⟩ := flush_last h hl.1
+  exact ⟨by simp [b], by simp [b], by rw [a]; exact hl.2.2⟩
+
+theorem visitChildren_last {c k l st s s'} (h : visitChildren c k l st s = .ok s') (hi : s.pending.isSome → s.header = false) :
+    s'.lastAttrLine = s.lastAttrLine ∧ ((s'.pending = s.pending ∧ s'.header = s.header) ∨ (s'.pending = none ∧ s'.header = false)) := by
+  unfold visitChildren at h
+  split at h
+  · simp [raise] at h
+  · simp only [bind_ok] at h
+    obtain ⟨s1, hs1, s2, hs2, s3, hs3, h⟩ := h
+    split at h
+    · simp [raise] at h
     · cases h
+      have e2 := resolveRefs_ok hs2; subst e2
+      obtain ⟨w3, e3⟩ := readDeps_ok hs3
+      have m1 : ∀ t : St, (markOffs l t).header = t.header := by intro t; unfold markOffs; split <;> rfl
+      rw [e3]
+      simp only [markOffs_pending, markOffs_lastAttrLine, m1]
+      split at hs1
+      · obtain ⟨a, b, d⟩ := flush_last hs1 hi
+        exact ⟨a, Or.inr ⟨b, d⟩⟩
+      · cases hs1; exact ⟨rfl, Or.inl ⟨rfl, rfl⟩⟩
 
-/-! ### documents without lazily failing attributes -/
+theorem onDirective_last {c k s name e text s'} (h : onDirective c k s name e text = .ok s') :
+    s'.lastAttrLine = s.lastAttrLine ∧ s'.pending = s.pending ∧ s'.header = s.header := by
+  unfold onDirective at h
+  repeat' split at h
+  all_goals first | (simp [raise] at h; done) | (cases h; exact ⟨rfl, rfl, rfl⟩)
 
-/-- the queued attribute, if any, will be committed without raising -/
-def Safe (s : St) : Prop := (∀ p, s.pending = some p → p.2 = false) ∧ s.cur.offsetUsed = false
-
-def Line.noLazy (l : Line) : Prop := l.fault ≠ some .commit ∧ l.offs = false
-
-theorem flushAttr_safe {c k s doc} (hs : Safe s) : ∃ s', flushAttr c k s doc = .ok s' ∧ Safe s' ∧ s'.pending = none := by
-  unfold flushAttr
-  cases hp : s.pending with
-  | none => exact ⟨s, rfl, hs, hp⟩
-  | some p =>
-    obtain ⟨a, bad⟩ := p
-    have hb : bad = false := hs.1 _ hp
-    subst hb
-    simp only [commitAttr, hs.2, Bool.and_false]
-    cases hk : a.core.kind <;> simp [Safe]
-
-theorem flush_safe {c k s} (hs : Safe s) : ∃ s', flush c k s = .ok s' ∧ Safe s' := by
-  unfold flush
-  split
-  · exact ⟨_, rfl, by simpa [Safe] using hs⟩
-  · obtain ⟨s1, h1, hs1, _⟩ := flushAttr_safe (c := c) (k := k) (doc := s.comment) hs
-    rw [h1]
-    exact ⟨_, rfl, by simpa [Safe] using hs1⟩
-
-theorem flush_safe' {c k s s'} (h : flush c k s = .ok s') (hs : Safe s) : Safe s' := by
-  obtain ⟨s2, h2, hs2⟩ := flush_safe (c := c) (k := k) hs
-  rw [h] at h2; cases h2; exact hs2
-
-theorem visitStmt_safe {c k l st s s'} (hn : l.noLazy) (h : visitStmt c k l st s = .ok s') (hs : Safe s) : Safe s' := by
+theorem LInv_visitStmt {P c k l st s s'} (hk : 0 < k) (h : visitStmt c k l st s = .ok s') (hl : LInv P s) :
+    LInv (fun n => P n ∨ n = k) s' := by
   unfold visitStmt at h
   rw [bind_ok] at h
   obtain ⟨s3, h3, h⟩ := h
-  have hs3 : Safe s3 := by
-    unfold visitChildren at h3
-    split at h3
-    · simp [raise] at h3
-    · simp only [bind_ok] at h3
-      obtain ⟨s1, hs1, s2, hs2, s3', hs3', h3⟩ := h3
-      split at h3
-      · simp [raise] at h3
-      · cases h3
-        have e2 := resolveRefs_ok hs2; subst e2
-        obtain ⟨w3, e3⟩ := readDeps_ok hs3'
-        have : Safe s2 := by
-          split at hs1
-          · exact flush_safe' hs1 hs
-          · cases hs1; exact hs
-        rw [e3]
-        simp only [markOffs, hn.2]
-        exact this
+  obtain ⟨a3, b3⟩ := visitChildren_last h3 hl.1
+  have hl3 : LInv P s3 := by
+    rcases b3 with ⟨b, d⟩ | ⟨b, d⟩
+    · exact ⟨by rw [b, d]; exact hl.1, by rw [b, a3]; exact hl.2.1, by rw [a3]; exact hl.2.2⟩
+    · exact ⟨by simp [b], by simp [b], by rw [a3]; exact hl.2.2⟩
   unfold emitStmt at h
   rw [bind_ok] at h
   obtain ⟨s4, h4, h⟩ := h
-  have hs4 := flush_safe' h4 hs3
+  have hl4 := LInv_flush h4 hl3
+  obtain ⟨_, p4, hd4⟩ := flush_last h4 hl3.1
   split at h
   · simp [raise] at h
   · cases st with
@@ -194,101 +256,251 @@ theorem visitStmt_safe {c k l st s s'} (hn : l.noLazy) (h : visitStmt c k l st s
       · simp [raise] at h
       · rw [map_ok] at h
         obtain ⟨s5, h5, h6⟩ := h
-        obtain ⟨s5', h5', hs5, _⟩ := flushAttr_safe (c := c) (k := k) (doc := "") hs4
-        rw [h5] at h5'; cases h5'
-        subst h6
-        refine ⟨?_, hs5.2⟩
-        intro p hp
-        simp at hp
-        subst hp
-        have := hn.1
-        cases hf : l.fault with
-        | none => simp
-        | some ph => cases ph <;> simp_all
-    | directive name ev text =>
+        simp [flushAttr, p4] at h5
+        subst h5; subst h6
+        refine ⟨fun _ => hd4, ?_, Or.inr (Or.inr rfl)⟩
+        intro a bad hab
+        simp at hab
+        obtain ⟨rfl, _⟩ := hab
+        exact ⟨rfl, by show k ≠ 0; omega⟩
+    | directive name e text =>
       simp only at h
-      unfold onDirective at h
-      repeat' split at h
-      all_goals first | (simp [raise] at h; done) | (cases h; exact ⟨hs4.1, hs4.2⟩) | skip
+      obtain ⟨a, b, d⟩ := onDirective_last h
+      exact LInv_mono ⟨by rw [b, d]; exact hl4.1, by rw [b, a]; exact hl4.2.1, by rw [a]; exact hl4.2.2⟩ (fun _ => Or.inl)
     | marker =>
       simp only at h
       have := onMarker_ok h
       subst this
-      exact ⟨hs4.1, rfl⟩
+      exact LInv_mono ⟨by simp [p4], by simp [p4], hl4.2.2⟩ (fun _ => Or.inl)
 
-theorem stepLine_safe {c k l s s'} (hn : l.noLazy) (h : stepLine c k s l = .ok s') (hs : Safe s) : Safe s' := by
+/-- numbers of the lines that hold a statement or do not match the grammar -/
+def culpritLineNos : Nat → List Line → List Nat
+  | _, [] => []
+  | k, l :: ls => (if l.stmt.isSome || l.fault == some .syn then [k] else []) ++ culpritLineNos (l.next k) ls
+
+theorem LInv_stepLine {P c k l s s'} (hk : 0 < k) (h : stepLine c k s l = .ok s') (hl : LInv P s) :
+    LInv (fun n => P n ∨ (n = k ∧ l.stmt.isSome)) s' := by
   unfold stepLine at h
   rw [bind_ok] at h
   obtain ⟨s1, h1, h⟩ := h
-  have hs1 : Safe s1 := by
-    cases hl : l.stmt with
-    | none => simp [hl] at h1; subst h1; exact hs
-    | some st => simp only [hl] at h1; exact visitStmt_safe hn h1 hs
-  have hs1' : Safe (addLineComment l s1) := by
-    unfold addLineComment; cases l.comment <;> exact hs1
+  have hl1 : LInv (fun n => P n ∨ (n = k ∧ l.stmt.isSome)) s1 := by
+    cases hs : l.stmt with
+    | none => simp [hs] at h1; subst h1; exact LInv_mono hl (fun _ => Or.inl)
+    | some st =>
+      simp only [hs] at h1
+      exact LInv_mono (LInv_visitStmt hk h1 hl) (fun n hn => hn.imp id (fun e => ⟨e, rfl⟩))
+  have hl1' : LInv (fun n => P n ∨ (n = k ∧ l.stmt.isSome)) (addLineComment l s1) := by
+    unfold addLineComment; cases l.comment <;> exact hl1
   split at h
-  · exact flush_safe' h hs1'
-  · cases h; exact hs1'
+  · exact LInv_flush h hl1'
+  · cases h; exact hl1'
 
-/-- without lazily failing attributes, a line that holds no statement never raises -/
-theorem stepLine_err_stmt {c k l s e w'} (hs : Safe s) (h : stepLine c k s l = .error (e, w')) : l.stmt.isSome := by
-  cases hl : l.stmt with
-  | some st => rfl
-  | none =>
-    unfold stepLine at h
-    simp only [hl, bind, Except.bind] at h
-    split at h
-    · have hs' : Safe (addLineComment l s) := by
-        unfold addLineComment; cases l.comment <;> exact hs
-      obtain ⟨s2, h2, _⟩ := flush_safe (c := c) (k := k) hs'
-      rw [h2] at h; cases h
+/-- every error that leaves the visit of line `k`: the untouched error of a referenced definition, an own error with
+    line `k` (which then holds a statement), or an own error with the line of an earlier attribute statement -/
+theorem stepLine_err {P c k l s e w'} (hk : 0 < k) (hl : LInv P s) (h : stepLine c k s l = .error (e, w')) :
+    DepErr c l e ∨ (e = ⟨c.self, some k⟩ ∧ l.stmt.isSome) ∨ (∃ n, e = ⟨c.self, some n⟩ ∧ P n) := by
+  have attr : ∀ t : St, LInv (fun n => P n ∨ (n = k ∧ l.stmt.isSome)) t → t.pending.isSome →
+      (⟨c.self, some (AttrLine t k)⟩ : Err) = e → (e = ⟨c.self, some k⟩ ∧ l.stmt.isSome) ∨ (∃ n, e = ⟨c.self, some n⟩ ∧ P n) := by
+    intro t ht hp he
+    have h0 := ht.last_ne hp
+    rcases ht.2.2 with h1 | h1
+    · exact absurd h1 h0
+    · simp only [AttrLine, h0, if_false] at he
+      rcases h1 with h1 | ⟨h1, h2⟩
+      · right; exact ⟨_, he.symm, h1⟩
+      · left; exact ⟨by rw [← he, h1], h2⟩
+  unfold stepLine at h
+  rw [bind_err] at h
+  rcases h with h | ⟨s1, h1, h⟩
+  · cases hs : l.stmt with
+    | none => simp [hs] at h
+    | some st =>
+      simp only [hs] at h
+      rcases visitStmt_err hl.1 h with h | ⟨hp, he⟩ | h
+      · right; left; exact ⟨h, rfl⟩
+      · right
+        have := attr s (LInv_mono hl (fun _ => Or.inl)) hp he.symm
+        rcases this with ⟨a, _⟩ | b
+        · left; exact ⟨a, rfl⟩
+        · right; exact b
+      · left; exact h
+  · split at h
+    · right
+      have hl1 : LInv (fun n => P n ∨ (n = k ∧ l.stmt.isSome)) s1 := by
+        cases hs : l.stmt with
+        | none => simp [hs] at h1; subst h1; exact LInv_mono hl (fun _ => Or.inl)
+        | some st =>
+          simp only [hs] at h1
+          exact LInv_mono (LInv_visitStmt hk h1 hl) (fun n hn => hn.imp id (fun e => ⟨e, rfl⟩))
+      have hl1' : LInv (fun n => P n ∨ (n = k ∧ l.stmt.isSome)) (addLineComment l s1) := by
+        unfold addLineComment; cases l.comment <;> exact hl1
+      obtain ⟨hp, he⟩ := flush_err h
+      exact attr _ hl1' hp he.symm
     · cases h
 
-/-- the first line whose visit raises: everything before it passed -/
-theorem runLines_err {c} (ls : List Line) : ∀ k s e w', (∀ l ∈ ls, l.noLazy) → Safe s → runLines c k s ls = .error (e, w') →
-    ∃ ls₁ l ls₂ s₁, ls = ls₁ ++ l :: ls₂ ∧ runLines c k s ls₁ = .ok s₁ ∧ l.stmt.isSome ∧
-      (e = ⟨c.self, some (k + ls₁.length)⟩ ∨ DepErr c (k + ls₁.length) l e) := by
+/-- an error raised while the queued attribute is committed carries the line of that attribute's own statement -/
+theorem flush_err_attr {P c k s e w'} (hl : LInv P s) (h : flush c k s = .error (e, w')) :
+    ∃ a bad, s.pending = some (a, bad) ∧ e = ⟨c.self, some a.line⟩ := by
+  obtain ⟨hp, he⟩ := flush_err h
+  cases hq : s.pending with
+  | none => simp [hq] at hp
+  | some p =>
+    obtain ⟨a, bad⟩ := p
+    obtain ⟨h1, h2⟩ := hl.2.1 a bad hq
+    refine ⟨a, bad, rfl, ?_⟩
+    rw [he, h1]; simp [h2]
+
+theorem next_pos (l : Line) (k : Nat) : 0 < l.next k := by unfold Line.next; omega
+
+/-- all lines: an own error carries the number of a line that holds a statement -/
+theorem runLines_err {c} (ls : List Line) : ∀ (P : Nat → Prop) k s e w', 0 < k → LInv P s → runLines c k s ls = .error (e, w') →
+    (∃ l ∈ ls, DepErr c l e) ∨ ∃ n, e = ⟨c.self, some n⟩ ∧ (P n ∨ n ∈ culpritLineNos k ls) := by
   induction ls with
-  | nil => intro k s e w' _ _ h; simp [runLines] at h
+  | nil => intro P k s e w' _ _ h; simp [runLines] at h
   | cons l ls ih =>
-    intro k s e w' hn hs h
+    intro P k s e w' hk hl h
     simp only [runLines] at h
     rw [bind_err] at h
     rcases h with h | ⟨s1, h1, h⟩
-    · exact ⟨[], l, ls, s, rfl, rfl, stepLine_err_stmt hs h, by simpa using stepLine_err h⟩
-    · have hs1 := stepLine_safe (hn l (List.mem_cons_self ..)) h1 hs
-      obtain ⟨ls₁, l', ls₂, s₁, e1, e2, e3, e4⟩ := ih (k + 1) s1 e w' (fun x hx => hn x (List.mem_cons_of_mem _ hx)) hs1 h
-      refine ⟨l :: ls₁, l', ls₂, s₁, by simp [e1], ?_, e3, ?_⟩
-      · simp only [runLines, h1, bind, Except.bind]; exact e2
-      · have : k + (l :: ls₁).length = k + 1 + ls₁.length := by simp; omega
-        rw [this]; exact e4
+    · rcases stepLine_err hk hl h with h | ⟨h, hs⟩ | ⟨n, h, hp⟩
+      · left; exact ⟨l, List.mem_cons_self .., h⟩
+      · right; exact ⟨k, h, Or.inr (by simp [culpritLineNos, hs])⟩
+      · right; exact ⟨n, h, Or.inl hp⟩
+    · rcases ih _ _ _ _ _ (next_pos l k) (LInv_stepLine hk h1 hl) h with ⟨l', hm, hd⟩ | ⟨n, he, hn⟩
+      · left; exact ⟨l', List.mem_cons_of_mem _ hm, hd⟩
+      · right
+        refine ⟨n, he, ?_⟩
+        rcases hn with (hp | ⟨rfl, hs⟩) | hn
+        · exact Or.inl hp
+        · exact Or.inr (by simp [culpritLineNos, hs])
+        · exact Or.inr (by simp only [culpritLineNos, List.mem_append]; exact Or.inr hn)
 
-theorem runLines_safe {c} (ls : List Line) : ∀ k s s', (∀ l ∈ ls, l.noLazy) → Safe s → runLines c k s ls = .ok s' → Safe s' := by
+theorem runLines_linv {c} (ls : List Line) : ∀ (P : Nat → Prop) k s s', 0 < k → LInv P s → runLines c k s ls = .ok s' →
+    LInv (fun n => P n ∨ n ∈ culpritLineNos k ls) s' := by
   induction ls with
-  | nil => intro k s s' _ hs h; simp [runLines] at h; subst h; exact hs
+  | nil => intro P k s s' _ hl h; simp [runLines] at h; subst h; exact LInv_mono hl (fun _ => Or.inl)
   | cons l ls ih =>
-    intro k s s' hn hs h
+    intro P k s s' hk hl h
     simp only [runLines, bind_ok] at h
     obtain ⟨s1, h1, h2⟩ := h
-    exact ih _ _ _ (fun x hx => hn x (List.mem_cons_of_mem _ hx)) (stepLine_safe (hn l (List.mem_cons_self ..)) h1 hs) h2
+    refine LInv_mono (ih _ _ _ _ (next_pos l k) (LInv_stepLine hk h1 hl) h2) ?_
+    intro n hn
+    rcases hn with (hp | ⟨rfl, hs⟩) | hn
+    · exact Or.inl hp
+    · exact Or.inr (by simp [culpritLineNos, hs])
+    · exact Or.inr (by simp only [culpritLineNos, List.mem_append]; exact Or.inr hn)
 
-theorem firstSyntaxError_some {ls : List Line} : ∀ k n, firstSyntaxError k ls = some n →
-    ∃ ls₁ l ls₂, ls = ls₁ ++ l :: ls₂ ∧ l.fault = some .syn ∧ (∀ x ∈ ls₁, x.fault ≠ some .syn) ∧ n = k + ls₁.length := by
+theorem firstSyntaxError_mem {ls : List Line} : ∀ k n, firstSyntaxError k ls = some n → n ∈ culpritLineNos k ls := by
   induction ls with
   | nil => intro k n h; simp [firstSyntaxError] at h
   | cons l ls ih =>
     intro k n h
     simp only [firstSyntaxError] at h
     split at h
-    · rename_i hf; cases h; exact ⟨[], l, ls, rfl, hf, by simp, by simp⟩
-    · rename_i hf
-      obtain ⟨ls₁, l', ls₂, e1, e2, e3, e4⟩ := ih _ _ h
-      refine ⟨l :: ls₁, l', ls₂, by simp [e1], e2, ?_, by simp [e4]; omega⟩
-      intro x hx
-      cases hx with
-      | head => exact hf
-      | tail _ hx => exact e3 x hx
+    · rename_i hf; cases h; simp [culpritLineNos, hf]
+    · simp only [culpritLineNos, List.mem_append]; exact Or.inr (ih _ _ h)
 
-theorem Safe_init (w : W) : Safe (St.init w) := by simp [Safe, St.init, Schema.empty]
+theorem LInv_init (w : W) : LInv (fun _ => False) (St.init w) := by simp [LInv, St.init]
+
+/-- a failed read: the untouched error of a referenced definition, or an own error without a line (finalize), or an own
+    error whose line is the number of a line that holds a statement (or does not match the grammar) -/
+theorem readText_err {c ls w e w'} (h : readText c ls w = .error (e, w')) :
+    (∃ l ∈ ls, DepErr c l e) ∨ e = ⟨c.self, none⟩ ∨ ∃ n, e = ⟨c.self, some n⟩ ∧ n ∈ culpritLineNos 1 ls := by
+  unfold readText at h
+  split at h
+  · rename_i k hk
+    simp at h
+    right; right
+    exact ⟨k, h.1.symm, firstSyntaxError_mem _ _ hk⟩
+  · rw [bind_err] at h
+    rcases h with h | ⟨s, hs, h⟩
+    · rcases runLines_err ls _ 1 _ e w' (by omega) (LInv_init w) h with h | ⟨n, he, hn⟩
+      · left; exact h
+      · right; right; exact ⟨n, he, by simpa using hn⟩
+    · have hl := runLines_linv ls _ 1 _ _ (by omega) (LInv_init w) hs
+      rw [bind_err] at h
+      rcases h with h | ⟨s', hf, h⟩
+      · obtain ⟨hp, he⟩ := flush_err h
+        have h0 := hl.last_ne hp
+        right; right
+        rcases hl.2.2 with h1 | h1
+        · exact absurd h1 h0
+        · simp only [h0, if_false] at he
+          exact ⟨_, he, by simpa using h1⟩
+      · right; left
+        rw [map_err] at h
+        simp only [finalize] at h
+        split at h
+        · simp [raise] at h; exact h.1.symm
+        · cases h
+
+/-! ### the path of an error, at any dependency depth -/
+
+/-- the definition at the reported path fails on its own: reading it raises exactly this error -/
+def FailsItself (defs : List Def) (e : Err) : Prop :=
+  ∃ pf fuel w0 w1 d, defs[e.file]? = some d ∧
+    readText ⟨e.file, pf, defs.length, readDef fuel defs pf, d.finalFault⟩ d.lines w0 = .error (e, w1) ∧
+    (e.line = none ∨ ∃ n, e.line = some n ∧ n ∈ culpritLineNos 1 d.lines)
+
+theorem readDef_path (defs : List Def) (pf : Nat) : ∀ fuel w i w' e, i < defs.length → readDef fuel defs pf w i = (w', some e) →
+    FailsItself defs e ∨ e = ⟨defs.length, none⟩ := by
+  intro fuel
+  induction fuel with
+  | zero => intro w i w' e _ h; simp [readDef] at h; right; exact h.2.symm
+  | succ fuel ih =>
+    intro w i w' e hi h
+    unfold readDef at h
+    split at h
+    · simp at h
+    · have hd : defs[i]? = some defs[i] := List.getElem?_eq_getElem hi
+      simp only [hd] at h
+      split at h
+      · simp at h
+      · rename_i e1 w1 hr
+        simp at h
+        obtain ⟨_, rfl⟩ := h
+        rcases readText_err hr with ⟨l, _, w0, j, w2, _, hj, hdep⟩ | hown | ⟨n, hown, hn⟩
+        · simp at hdep hj
+          exact ih _ _ _ _ hj hdep
+        · left
+          simp at hown
+          refine ⟨pf, fuel, w, w1, defs[i], by rw [hown]; exact hd, ?_, Or.inl (by rw [hown])⟩
+          rw [hown] at hr ⊢; exact hr
+        · left
+          simp at hown
+          refine ⟨pf, fuel, w, w1, defs[i], by rw [hown]; exact hd, ?_, Or.inr ⟨n, by rw [hown], hn⟩⟩
+          rw [hown] at hr ⊢; exact hr
+
+/-- … and for the targets of a namespace -/
+theorem readTargets_path (defs : List Def) : ∀ ts w acc e w', (∀ t ∈ ts, t < defs.length) →
+    readTargets defs ts w acc = .error (e, w') → FailsItself defs e ∨ e = ⟨defs.length, none⟩ := by
+  intro ts
+  induction ts with
+  | nil => intro w acc e w' _ h; simp [readTargets] at h
+  | cons t ts ih =>
+    intro w acc e w' ht h
+    have hts : ∀ x ∈ ts, x < defs.length := fun x hx => ht x (List.mem_cons_of_mem _ hx)
+    have hi : t < defs.length := ht t (List.mem_cons_self ..)
+    unfold readTargets at h
+    split at h
+    · exact ih _ _ _ _ hts h
+    · have hd : defs[t]? = some defs[t] := List.getElem?_eq_getElem hi
+      simp only [hd] at h
+      split at h
+      · exact ih _ _ _ _ hts h
+      · rename_i e1 w1 hr
+        simp at h
+        obtain ⟨rfl, _⟩ := h
+        rcases readText_err hr with ⟨l, _, w0, j, w2, _, hj, hdep⟩ | hown | ⟨n, hown, hn⟩
+        · simp at hdep hj
+          exact readDef_path defs t _ _ _ _ _ hj hdep
+        · left
+          simp at hown
+          refine ⟨t, defs.length, w, w1, defs[t], by rw [hown]; exact hd, ?_, Or.inl (by rw [hown])⟩
+          rw [hown] at hr ⊢; exact hr
+        · left
+          simp at hown
+          refine ⟨t, defs.length, w, w1, defs[t], by rw [hown]; exact hd, ?_, Or.inr ⟨n, by rw [hown], hn⟩⟩
+          rw [hown] at hr ⊢; exact hr
 
 end Reader
